@@ -252,12 +252,45 @@ prop(
     TRUST,
 )
 
+import nbt_rules  # noqa: E402
+from ffisig import rule_ffisig  # noqa: E402
+
+
+def _prefixes(ctx):
+    if not hasattr(ctx, "_prefix_table"):
+        ctx._prefix_table = nbt_rules.prefix_table(ctx.lib)
+    return ctx._prefix_table
+
+
+PROPERTIES["C08"]["rules"].append(("FFISIG", lambda ctx: rule_ffisig(ctx.lib, ctx.nbt)))
+PROPERTIES["C08"]["explanation"] += " (FFISIG) For every native function the sequence of argument extractions in its Rust body (pop_front + unsafe_as_{quantity,string,list,datetime,bool}, as_scalar().unwrap()) agrees in number and kind with its body-less declaration in the .nbt modules and the arity registered in ffi::functions(), so those panics are unreachable for type-checked calls."
+PROPERTIES["C13"]["rules"] += [
+    ("UNITFORMS", lambda ctx: nbt_rules.rule_unitforms(ctx.nbt, _prefixes(ctx))),
+    ("OPTAB.prefix", lambda ctx: nbt_rules.rule_prefix_tables(ctx.lib)),
+]
+PROPERTIES["C13"]["explanation"] += " (UNITFORMS) The complete finite set of (prefix, alias) forms accepted according to the decorators of the standard library and the prefix table extracted from PrefixParser::prefixes() has exactly one reading per identifier and collides with no variable or function name of any module. (OPTAB.prefix) Prefix::as_string_long/short print every prefix in a spelling the parser table maps back to the same prefix."
+
+prop(
+    "C17",
+    "Necessary-condition clauses of C17 over the standard library source: (USECLOSURE) every free identifier of every module (values, units with accepted prefixes, dimensions, structs) is defined in the module or in the transitive closure of its `use`s, so no module relies on another having been loaded first; (DUPDEF) no value- or type-level name is defined by two different modules, which is the only way the result could depend on the import order. Not decided: type errors inside modules, constant values.",
+    [
+        ("USECLOSURE", lambda ctx: nbt_rules.rule_useclosure(ctx.nbt, _prefixes(ctx))),
+        ("DUPDEF", lambda ctx: nbt_rules.rule_dupdef(ctx.nbt, _prefixes(ctx))),
+    ],
+    TRUST + ["engine/nbtlint is an independent re-implementation of the Numbat surface syntax used for name-level facts only; it fails closed (unclassified statements, floors)"],
+)
+
+prop(
+    "C24",
+    "Necessary condition of C24 over the complete finite set of @example snippets: each of the 177 snippets is lexically well formed (strings, interpolation, brackets) and every free identifier (functions, variables, units with accepted prefixes, dimensions, structs) resolves in prelude ∪ units::currencies ∪ the defining module's import closure. Not decided: typing and evaluation of the examples.",
+    [("EXAMPLES", lambda ctx: nbt_rules.rule_examples(ctx.nbt, _prefixes(ctx)))],
+    TRUST + ["engine/nbtlint front end (see C17)"],
+)
+
 NOT_APPLICABLE = {
     "C03": "numerical agreement of conversion factors over 500 units is a statement about run-time values; no structural clause is a necessary condition that is not already covered under C04/C11/C12 (static analysis cannot bound the arithmetic)",
     "C14": "a statement about the decimal rendering of every f64 under every format setting; the code delegates to pretty_dtoa/num_format and no structural clause of Number::pretty_print_with_dtoa_config can be decided without evaluating it",
     "C23": "numeric round trips over function domains; composing the .nbt function bodies algebraically would be symbolic evaluation, which is a different technique family",
     # temporarily unclaimed while their rules are being built (see DESIGN.md section 9)
     "C10": "rule PREC under construction",
-    "C17": "nbtlint under construction",
-    "C24": "nbtlint under construction",
 }
